@@ -225,11 +225,16 @@ def report(prop: str, tier: str, results: List[Dict[str, Any]], wall: float, ver
         for o in r["obligations"]:
             instances += 1
             if o["status"] == "unknown" and o.get("smt2"):
-                pass
+                verdict, who = second_opinion(o["smt2"], 20 if tier == "quick" else 120)
+                if verdict == "unsat":
+                    o["status"], o["backend"] = "proved", who
+                elif verdict == "sat":
+                    o["status"], o["backend"] = "refuted", who
+                    o["model"] = {"note": f"counter-model found by {who} (not extracted)"}
             if o["twin"]:
                 twins.setdefault(o["key"], []).append(o["status"])
                 continue
-            g = grouped.setdefault(o["key"], {"key": o["key"], "kind": o["kind"], "desc": o["desc"], "unit": r["name"],
+            g = grouped.setdefault(r["name"] + "::" + o["key"], {"key": o["key"], "kind": o["kind"], "desc": o["desc"], "unit": r["name"],
                                               "status": "proved", "instances": 0, "time_s": 0.0, "backends": set(),
                                               "model": None, "path": None, "line": o["line"], "func": o["func"]})
             g["instances"] += 1
@@ -262,10 +267,12 @@ def report(prop: str, tier: str, results: List[Dict[str, Any]], wall: float, ver
         undecided.append(f"{g['unit']}: solver unknown on {g['key']}")
     # --- violations vs known findings
     violations: List[Dict[str, Any]] = []
+    n_known_obs = 0
     for g in refuted:
-        kn = next((k for k in known if k.get("match") and k["match"] in g["key"]), None)
+        kn = next((k for k in known if k.get("match") and k["match"] in f"{g['unit']}::{g['key']}"), None)
         if kn is not None:
             known_hits.append(f"{kn['what']} [obligation {g['key']}]")
+            n_known_obs += 1
             continue
         violations.append({"source": "obligation", "g": g})
     for name, f in native_failures:
@@ -315,7 +322,9 @@ def report(prop: str, tier: str, results: List[Dict[str, Any]], wall: float, ver
         "property_id": prop, "tier": tier, "seed": int(os.environ.get("VERIF_SEED", "0")),
         "level": LEVELS.get(prop, "proof"),
         "coverage": {
-            "obligations": n_ob, "discharged": len(proved), "refuted": len(refuted), "undecided": len(unknown),
+            "obligations": n_ob - n_known_obs, "discharged": len(proved),
+            "refuted": len(refuted) - n_known_obs, "undecided": len(unknown),
+            "obligations_of_recorded_findings_not_counted": n_known_obs,
             "path_instances": instances,
             "checker_cmd": f"./check {prop} --tier {tier}",
             "backends": backends, "solver_time_s": round(solver_s, 2),
